@@ -211,6 +211,35 @@ impl Router {
             OPTIONS(allow_override_handler = true)
         }
 
+        // The `OPTIONS` handlers merged above know the methods of `another`
+        // only. A merged route may have been registered before, by `self` or
+        // by an Ohkami merged earlier at the same path, with other methods:
+        // `("/x".GET(f), "/x".By(Ohkami::new("/".POST(g))))`. Let the `OPTIONS`
+        // handler of every merged route know all methods registered for it.
+        for another_route in another_routes.routes.keys() {
+            let merged = RouteSegments::merged(route.clone(), another_route.clone());
+            let Some(registered) = self.routes.get(&merged) else {continue};
+            let methods = {
+                macro_rules! allow_methods {
+                    ($($method:ident),*) => {{
+                        let mut methods = Vec::new();
+                        $(
+                            if registered.get(&Method::$method).is_some() {
+                                methods.push(stringify!($method))
+                            }
+                        )*
+                        methods
+                    }}
+                }
+                allow_methods! { GET, PUT, POST, PATCH, DELETE }
+            };
+            self.OPTIONS.register_handler(
+                merged.into_iter(),
+                Handler::default_options_with(methods),
+                true
+            ).expect("Failed to register handler");
+        }
+
         crate::DEBUG!("merged: {self:#?}");
     }
 
